@@ -1,4 +1,5 @@
 import PxModel.Exec
+import PxModel.ExecRemote
 /-
   Driver glue for the executor model.
 
@@ -203,8 +204,37 @@ def hRun (base : Nat) : HState → List String → List String
   | _, [] => []
   | h, t :: r => let (h', o) := hStep base h t; o :: hRun base h' r
 
+def csvInts (l : List Int) : String := if l.isEmpty then "-" else ",".intercalate (l.map toString)
+
+/-- `exec remote <op>…`: `a<fd>` arrival, `f<fd>` arrival whose initialize() raises, `c<fd>` clean-up,
+    `p` print (owned raw descriptors and works, sorted).  Remote executor model (`ExecRemote.lean`). -/
+def remoteRun : RExec → List String → List String → Option (List String)
+  | _, [], acc => some acc.reverse
+  | x, t :: r, acc =>
+    if t == "p" then
+      remoteRun x r (s!"raw={csvInts (sortInts x.raw)} works={csvInts (sortInts x.ex.works)}" :: acc)
+    else
+      let kind := t.take 1
+      match (t.drop 1).toInt? with
+      | none => none
+      | some fd =>
+        let res : Option (Except Dead RExec) :=
+          if kind == "a" then some (acceptR x ⟨fd, false⟩ ⟨[], false⟩)
+          else if kind == "f" then some (acceptR x ⟨fd, true⟩ ⟨[], false⟩)
+          else if kind == "c" then some (cleanupR x fd ⟨[], false⟩)
+          else none
+        match res with
+        | none => none
+        | some (.error _) => some ("dead" :: acc).reverse
+        | some (.ok y) => remoteRun y r acc
+
 def execDrv (args : List String) : String :=
   match args with
+  | "remote" :: ops =>
+    let x0 : Exec := { works := [], registered := [], sk := { map := [], k := { open_ := [], epoll := [] } } }
+    match remoteRun ⟨x0, []⟩ ops [] with
+    | none => "bad-op"
+    | some outs => joinWith "|" outs
   | base :: toks =>
     match base.toNat? with
     | some base =>
